@@ -15,6 +15,7 @@ import shutil
 import time
 
 from .. import compare_impl as ci
+from .. import comparechild
 from .. import tlc, tracecheck
 from ..core import Violation
 from ..tlaparse import parse_dump, parse_value, to_json
@@ -163,20 +164,25 @@ class Check:
         self.seen = {}
         self.counts = {}
 
-    def make_item(self, iid, B, C, proc, D):
-        it = {"id": iid, "proc": bool(proc), "B": B, "C": C}
+    def crashed(self, B, C, proc, D, exc_type, text, env=None):
+        """the comparison of two well-formed stored results did not produce a table at all"""
+        sig = {"clause": "ComparisonCompletes", "cause": exc_type}
+        if env:
+            sig["env"] = env["env"]
+        key = tuple(sorted(sig.items()))
+        self.counts[key] = self.counts.get(key, 0) + 1
+        if key not in self.seen:
+            case = dict({"B": B, "C": C, "proc": bool(proc), "D": D, "line": 0, "clause": "ComparisonCompletes"}, **(env or {}))
+            self.seen[key] = ((False, 0, 0), Violation("ComparisonCompletes", case, signature=sig, detail="comparing two stored races raised %s" % text))
+
+    def make_item(self, iid, B, C, proc, D, runner=None, env=None):
+        it = dict({"id": iid, "proc": bool(proc), "B": B, "C": C}, **(env or {}))
         try:
-            it.update(self.runner.run(B, C, proc, D))
+            it.update((runner or self.runner).run(B, C, proc, D))
         except tlc.MachineryError:
             raise
         except Exception as ex:  # pylint: disable=broad-except
-            # the comparison of two well-formed stored results did not produce a table at all
-            sig = {"clause": "ComparisonCompletes", "cause": type(ex).__name__}
-            key = tuple(sorted(sig.items()))
-            self.counts[key] = self.counts.get(key, 0) + 1
-            if key not in self.seen:
-                case = {"B": B, "C": C, "proc": bool(proc), "D": D, "line": 0, "clause": "ComparisonCompletes"}
-                self.seen[key] = ((False, 0, 0), Violation("ComparisonCompletes", case, signature=sig, detail="comparing two stored races raised %s: %s" % (type(ex).__name__, ex)))
+            self.crashed(B, C, proc, D, type(ex).__name__, "%s: %s" % (type(ex).__name__, ex), env)
             return None
         return it
 
@@ -198,6 +204,8 @@ class Check:
                     sig = {"clause": cl, "cause": cause}
                     if cause == "other":
                         sig["group"] = group
+                    if it.get("env", "inproc") != "inproc":
+                        sig["env"] = it["env"]
                     if cl == "Pairing":
                         raise tlc.MachineryError("harness pairing of swapped rows rejected by TLC for %s" % tid)
                     key = tuple(sorted(sig.items()))
@@ -215,6 +223,12 @@ class Check:
                             row["p"]["sg"], row["p"]["ip"], max(1, row["p"]["nd"]), row["p"]["fp"], row["pc"]) if row else "",
                     )
                     case = {"B": it["B"], "C": it["C"], "proc": it["proc"], "D": D, "line": line, "clause": cl}
+                    if "env" in it:
+                        case.update({"env": it["env"], "names": it["names"]})
+                    if line % 10 in (6, 7) and it["md" if line % 10 == 6 else "csv"].get("exc"):
+                        f = it["md" if line % 10 == 6 else "csv"]
+                        detail += " [%s names, %s] writing the report raised %s; console table %d rows, file %d rows" % (
+                            it.get("names", "ascii"), it.get("env", "inproc"), f["exc"], len(f["crows"]), len(f["frows"]))
                     self.seen[key] = (score, Violation(cl, case, signature=sig, detail=detail))
         for tid, lines in v.l2.items():
             what = sorted({"%s%s" % (TABLES.get(ln % 10, "?"), " row %r" % (ci.label(self.slots[ln // 10 - 1]),) if ln >= 10 else "") for ln in lines})
@@ -287,6 +301,40 @@ def run(ctx, out):
                 "first_rows": [[r["m"], r["t"], r["dt"], r["dc"], r["pt"], r["pc"]] for r in mid["fwd"][:4]]})
     chk.validate(items, D, "c20trace")
 
+    # ---- names outside ASCII, in-process (UTF-8) and in a child interpreter with a non-UTF-8 locale (file encoding under test)
+    locale_cases = []
+    wanted = [({1, 2}, {1, 2}), ({1, 2}, {1, 2}), ({1, 2}, {2}), ({1}, {1, 2})]
+    for k, (eb, ec) in enumerate(wanted):
+        cand = [st for st in states if st["variant"]["eb"] == eb and st["variant"]["ec"] == ec and NA not in st["pair"] and st["pair"][0] != st["pair"][1]]
+        st = cand[(ctx.seed * 5 + 3 * k + 1) % len(cand)]
+        locale_cases.append({"B": {"E": sorted(st["B"]["E"]), "nm": st["B"]["nm"], "v": list(st["B"]["v"])},
+                             "C": {"E": sorted(st["C"]["E"]), "nm": st["C"]["nm"], "v": list(st["C"]["v"])},
+                             "proc": bool(st["variant"]["proc"]), "D": D})
+    rndl = random.Random(ctx.seed * 7919 + 11)
+    for _ in range(2):
+        Bl, Cl = random_struct_pair(rndl, slots, D, len(naming))
+        locale_cases.append({"B": Bl, "C": Cl, "proc": rndl.random() < 0.5, "D": D})
+    uroot = os.path.join(tlc.scratch("c20races"), "unicode")
+    os.makedirs(uroot, exist_ok=True)
+    urunner = ci.Runner(slots, uroot, naming, "unicode")
+    litems = []
+    for k, c in enumerate(locale_cases):
+        it = chk.make_item("u%d" % k, c["B"], c["C"], c["proc"], D, runner=urunner, env={"names": "unicode", "env": "inproc"})
+        out.add_case((c["B"], c["C"], c["proc"], "unicode", "inproc"), nontrivial=bool(it and it["fwd"]))
+        if it is not None:
+            litems.append(it)
+    enc, outs = comparechild.run_cases(slots, naming, "unicode", locale_cases, os.path.join(tlc.scratch("c20races"), "child"))
+    for k, (c, o) in enumerate(zip(locale_cases, outs)):
+        env = {"names": "unicode", "env": "non-utf8-locale"}
+        out.add_case((c["B"], c["C"], c["proc"], "unicode", "child"), nontrivial="crash" not in o and bool(o.get("fwd")))
+        if "crash" in o:
+            chk.crashed(c["B"], c["C"], c["proc"], D, o["crash_type"], o["crash"], env)
+            continue
+        litems.append(dict({"id": "c%d" % k, "proc": bool(c["proc"]), "B": c["B"], "C": c["C"]}, **env, **o))
+    chk.validate(litems, D, "c20locale")
+    out.extra["locale_leg"] = {"child_encoding": enc, "cases": len(locale_cases), "environment": comparechild.ENV}
+    out.note("locale leg: %d comparisons with non-ASCII task / job / transform / index / field names, in-process and in a child interpreter (%s)" % (len(locale_cases), enc))
+
     # ---- seeded random pairs (C2S only)
     for gi, (Dr, n) in enumerate(((1000000, 90 if ctx.quick else 800), (1000, 90 if ctx.quick else 800))):
         rnd = random.Random(ctx.seed * 7919 + 20 + gi)
@@ -309,13 +357,20 @@ def replay(ctx, case):
     res, naming = _slots_only()
     root = os.path.join(tlc.scratch("c20races"), "root")
     os.makedirs(root, exist_ok=True)
-    runner = ci.Runner(res, root, naming)
+    runner = ci.Runner(res, root, naming, case.get("names", "ascii"))
     case["B"].setdefault("nm", 0)
     case["C"].setdefault("nm", 0)
     sw = probe_switches(runner)
     it = {"id": "replay", "proc": bool(case["proc"]), "B": case["B"], "C": case["C"]}
     try:
-        it.update(runner.run(case["B"], case["C"], case["proc"], case["D"]))
+        if case.get("env", "inproc") == "inproc":
+            it.update(runner.run(case["B"], case["C"], case["proc"], case["D"]))
+        else:
+            _, outs = comparechild.run_cases(res, naming, case.get("names", "ascii"), [{k: case[k] for k in ("B", "C", "proc", "D")}], os.path.join(tlc.scratch("c20races"), "child"))
+            if "crash" in outs[0]:
+                print("VIOLATION property=C20 clause=ComparisonCompletes comparing the two stored races raised %s" % outs[0]["crash"])
+                return 1
+            it.update(outs[0])
     except tlc.MachineryError:
         raise
     except Exception as ex:  # pylint: disable=broad-except
